@@ -152,7 +152,7 @@ func check(h hist, full *progs.Case, count func(string)) []finding {
 		for i := range full.Ops {
 			fo, ao := full.Ops[i], alone.Ops[i]
 			if fo.K == "load" && fo.Prog == p && fo.Err != ao.Err {
-				if strings.Contains(fo.Err, "has different kind") && ao.Err == "" {
+				if strings.Contains(fo.Err, "has different kind") && clashesWithOther(full, i, p, fo.Err) {
 					// refused because another program uses the name with another
 					// kind: permitted; from here on the program legitimately differs
 					count("permitted-kind-refusal")
@@ -180,6 +180,31 @@ func check(h hist, full *progs.Case, count func(string)) []finding {
 		}
 	}
 	return out
+}
+
+// clashesWithOther: the refusal "metric X has different kind ..." names a
+// metric that, just before the step, another program holds in the store.  (The
+// program alone may then be refused too, later, by a stale metric of its own:
+// the runs legitimately differ from the first refusal on.)
+func clashesWithOther(full *progs.Case, step int, p, errText string) bool {
+	name := strings.TrimPrefix(errText, "metric ")
+	if i := strings.Index(name, " has different kind"); i >= 0 {
+		name = name[:i]
+	}
+	if step == 0 {
+		return false
+	}
+	for _, nm := range full.Snaps[step-1].Store {
+		if nm.Name != name {
+			continue
+		}
+		for _, m := range nm.Metrics {
+			if m.Prog != p {
+				return true
+			}
+		}
+	}
+	return false
 }
 
 func nontrivial(c *progs.Case) bool {
@@ -211,7 +236,7 @@ func main() {
 	rng := vlib.NewRand(a.Seed)
 	n := 300
 	if a.Thorough() {
-		n = 6000
+		n = 2500
 	}
 	for i := 0; i < n; i++ {
 		conflicts := i%3 == 2
